@@ -3,14 +3,27 @@
 package main
 
 import (
+	"log/slog"
+	"net"
 	"testing"
+
+	"example.com/scion-time/core/client"
+	"example.com/scion-time/core/sync"
 
 	"verif.local/sim/simcore"
 	"verif.local/sim/worlds"
 )
 
-// TestVerifSim is the single entry point of the simulator binary.
+// TestVerifSim is the single entry point of the simulator binary. The hooks give
+// the worlds the repository's own wiring functions (package main).
 func TestVerifSim(t *testing.T) {
-	worlds.Root = worlds.RootHooks{}
+	worlds.Root = worlds.RootHooks{
+		ConfigureIPClientNTS: configureIPClientNTS,
+		NewNTPReferenceClockIP: func(log *slog.Logger, localAddr, remoteAddr *net.UDPAddr, dscp uint8, authModes []string,
+			ntskeServer string, insecureSkipVerify bool) client.ReferenceClock {
+			return newNTPReferenceClockIP(log, localAddr, remoteAddr, dscp, authModes, ntskeServer, insecureSkipVerify)
+		},
+		DefaultSyncConfig: func() sync.Config { return syncConfig(svcConfig{}) },
+	}
 	simcore.WorkerMain(t)
 }
